@@ -98,7 +98,7 @@ def cases(run):
         mode = rng.random()
         if mode < 0.6:
             qs, qe = sorted((rng.choice(pts), rng.choice(pts)))
-            fs = rng.choice([qs, qs + rng.randint(0, 5), rng.choice(pts), rng.randint(max(0, qs), max(qs, qe))])
+            fs = rng.choice([qs, qs + rng.randint(0, 5), rng.choice(pts), rng.randint(min(qs, qe), max(qs, qe))])
             fe = rng.choice([qe, fs, fs + rng.randint(0, 300000), rng.choice(pts), rng.randint(min(fs, qe), max(fs, qe))])
         else:
             qs = rng.randint(0, 2 ** 30)
